@@ -616,8 +616,8 @@ Definition judge_variant (norm : string -> string) (stream : string) (pl : list 
    Outside the class fence-info-trailing-blank there is one reading of the tags.  Inside it the observations are
    D, then the code-only documents of the reading without the blanks (what the property expects: `ok` if they
    match), then those of the reading of the code (if only they match: the known wrong behaviour) *)
-Definition judge_lines (stream : string) (listed : list string) (ls : list jline)
-                       (os : list (dobs * option (list sblock))) : option sx :=
+Definition judge_lines0 (stream : string) (listed : list string) (ls : list jline)
+                        (os : list (dobs * option (list sblock))) : option sx :=
   match os with
   | (D, Some got) :: rest =>
       if negb (String.eqb (o_src D) (unlines ls)) then None else
@@ -651,6 +651,44 @@ Definition judge_lines (stream : string) (listed : list string) (ls : list jline
             end
       end
   | _ => None
+  end.
+
+(* ---- finding class `quote-swallows-after-whitespace-line` ----
+   quote_block() (and the other block elements) read +paragraph_newline; a line of blanks only is a paragraph of
+   blanks for them, not a blank line, so the block does not end there and swallows the lines after it up to the next
+   EMPTY line - code lines included: "~y := 1 / / > Quote. / <tab> / y = 2" leaves y = 1.
+   The class: outside fences, a prose line that starts with ">" directly followed by a non-empty line of blanks.
+   There is no model of what the swallowed lines become (a parse error, or prose): inside the class a verdict that
+   would be a violation is reported as advisory with the finding's name; an `ok` stays an `ok` (it is what the
+   repaired parser gives: proposed/C10-quote-swallows-after-whitespace-line.diff). *)
+Definition is_quote_line (l : string * role jstmt) : bool :=
+  match snd l with
+  | RProse | RProseWs => match skip_blanks (fst l) with String ">"%char _ => true | _ => false end
+  | _ => false
+  end.
+Fixpoint quote_ws_class (bs : list (block (role jstmt))) : bool :=
+  match bs with
+  | BLine l1 :: ((BLine l2 :: _) as r) =>
+      (is_quote_line l1 && all_blank (fst l2) && negb (String.eqb (fst l2) "")) || quote_ws_class r
+  | _ :: r => quote_ws_class r
+  | [] => false
+  end.
+Definition quote_ws_doc (ls : list jline) : bool :=
+  match scan_doc (prep ls) with Closed bs => quote_ws_class bs | Unclosed bs _ _ _ _ => quote_ws_class bs end.
+Definition is_violation (v : sx) : bool :=
+  match v with
+  | Lx (Ax "bad" :: _) => true
+  | Lx [Ax "kf"; Ax "list-then-dash-line"] => true
+  | _ => false
+  end.
+
+Definition judge_lines (stream : string) (listed : list string) (ls : list jline)
+                       (os : list (dobs * option (list sblock))) : option sx :=
+  match judge_lines0 stream listed ls os with
+  | Some v =>
+      if is_violation v && quote_ws_doc ls then Some (v_adv "finding-quote-swallows-after-whitespace-line")
+      else Some v
+  | None => None
   end.
 
 Definition decode_listed (x : sx) : option (list string) :=
